@@ -58,8 +58,8 @@ Notes:
 """
   from numpy import abs, asarray, newaxis as nwxs, zeros_like
   # cast as arrays of the same dimension
-  x = asarray(x)
-  xp = x if xp is None else asarray(xp)
+  x = asarray(x, dtype=float)
+  xp = x if xp is None else asarray(xp, dtype=float)
   xsize = max(len(x.shape), len(xp.shape), dmin)
   while len(x.shape) < xsize: x = x[nwxs]
   while len(xp.shape) < xsize: xp = xp[nwxs]
